@@ -158,6 +158,14 @@ def _exit(run, P):
 
 def _move(run, P):
     f = P.func(f"{GEN}.emit_user_type_move")
+    opts = {a_.arg for a_, d_ in zip(reversed(f.node.args.args), reversed(f.node.args.defaults))}
+    gated = [t for t in ast.walk(f.node) if isinstance(t, ast.If)
+             and any(isinstance(x, ast.Name) and x.id in opts for x in ast.walk(t.test))]
+    if gated:
+        # the move has an option that changes what it emits (taking over the reference of a
+        # source that dies, say): the sequence below is the plain move's
+        raise AnalysisError(f"emit_user_type_move emits differently under its option(s) "
+                            f"{sorted(opts)}; not decided")
     events = []
     for x in sorted((n for n in ast.walk(f.node) if isinstance(n, ast.Call)),
                     key=lambda n: (n.lineno, n.col_offset)):
@@ -191,6 +199,17 @@ def _move(run, P):
         for x in walk_fragment(n.ast))]
     uncond = all(g.exit not in g.reachable([g.entry], avoid=[n], follow_exc=False,
                                             include_start=True) for n in emit_nodes)
+    if emit_nodes and not uncond:
+        from .util import path_conditions as _pc
+        from .c09 import _stmt_of as _so
+        helper_gated = [n for n in emit_nodes if any(
+            re.search(r"\bself\.\w+\(", t_) for t_, _v in _pc(f.node, n.ast))]
+        if helper_gated:
+            # an emission left out when a predicate of the generator says it is not needed
+            # (the assignee is known to hold nothing yet, say): what the predicate knows is
+            # not decided here
+            raise AnalysisError("emit_user_type_move leaves an emission out under a predicate "
+                                "of the generator; not decided")
     run.ob("C12.move", f, f.node, bool(emit_nodes) and uncond,
            construct=f"emit_user_type_move: each of its {len(emit_nodes)} emissions is made on "
                      f"every path",
@@ -466,6 +485,14 @@ def _table_users(run, P):
                 or (t.strip() in ("self.loop_nesting_depth == 0", "self.loop_nesting_depth < 1") and v))
                 for t, v in conds)
             if not guarded:
+                # ... and <depth is zero>: the table is read, but what is read only counts
+                # together with the depth test it stands next to
+                conj = [b_ for b_ in ast.walk(f.node) if isinstance(b_, ast.BoolOp) and isinstance(b_.op, ast.And)
+                        and any(y is x for y in ast.walk(b_))]
+                if any(any(norm(v_).replace(" ", "") in ("notself.loop_nesting_depth", "self.loop_nesting_depth==0")
+                           for v_ in b_.values) for b_ in conj):
+                    guarded = True
+            if not guarded:
                 bad = x
         if bad is not None:
             # the table is read everywhere, but what is *emitted* on its word is emitted at
@@ -515,10 +542,18 @@ def _lastuse(run, P):
     call = P.func(f"{GEN}.__call__")
     ok = has("var_to_last_dependent_statement_mapping([V_a.name for V_a in V_fd], "
              "[get_statements_in_ast(V_b.ast) for V_b in V_fd])", call.node)
+    if not ok and not any(isinstance(x, ast.Call) and dotted(x.func) == "var_to_last_dependent_statement_mapping"
+                          for x in ast.walk(call.node)):
+        raise AnalysisError("CodeGenerator.__call__ builds the index of last uses in another way; "
+                            "not recognised")
     run.ob("C12.lastuse", call, call.node, ok,
            construct="table built from the statements of the final ASTs in emission order",
            why="'last' must mean last in the emitted code")
     d = P.func(f"{GEN}.emit_deinit_for_last_usage_of_vars")
+    if not any(isinstance(x, ast.Attribute) and x.attr == "last_used_stmt_table"
+               for x in ast.walk(d.node)):
+        raise AnalysisError("emit_deinit_for_last_usage_of_vars does not consult "
+                            "last_used_stmt_table (another index of last uses); not recognised")
     g = CFG(d.node)
     rel = [n for n in g.nodes if n.kind == "stmt" and any(
         isinstance(x, ast.Call) and dotted(x.func) == "self.emit_variable_deinit"
